@@ -1646,9 +1646,13 @@ bus_context_check_security_policy (BusContext     *context,
           _dbus_assert (sender_policy != NULL);
 
           /* Fill in requested_reply variable with TRUE if this is a
-           * reply and the reply was pending.
+           * reply and the reply was pending. Only method returns and
+           * errors are replies: a REPLY_SERIAL header field on any other
+           * message type does not answer anything.
            */
-          if (dbus_message_get_reply_serial (message) != 0)
+          if ((type == DBUS_MESSAGE_TYPE_METHOD_RETURN ||
+               type == DBUS_MESSAGE_TYPE_ERROR) &&
+              dbus_message_get_reply_serial (message) != 0)
             {
               if (proposed_recipient != NULL /* not to the bus driver */ &&
                   addressed_recipient == proposed_recipient /* not eavesdropping */)
